@@ -9,6 +9,7 @@
 
 mod api;
 mod compile;
+mod enc;
 mod exec;
 mod record;
 mod text;
@@ -40,6 +41,7 @@ fn main() {
         "compiles" => cmd_compiles(&args[2..]),
         "texts" => cmd_texts(&args[2..]),
         "fuzz-asm" => cmd_fuzz_asm(&args[2..]),
+        "encs" => cmd_encs(&args[2..]),
         other => {
             eprintln!("unknown command {other}");
             2
@@ -545,5 +547,53 @@ fn cmd_fuzz_asm(args: &[String]) -> i32 {
     let report = json!({"inputs": n, "distinct": distinct.len(), "ok": ok, "err": err, "fail": fails.len(), "failures": fails, "samples": samples});
     std::fs::write(report_path, serde_json::to_string(&report).unwrap()).unwrap();
     println!("fuzz-asm: {n} inputs, {ok} ok, {err} err, {} failing", report["fail"]);
+    0
+}
+
+/// rv encs --cases F --report R [--sweep-imm]
+fn cmd_encs(args: &[String]) -> i32 {
+    let report_path = arg(args, "--report").expect("--report");
+    if args.iter().any(|a| a == "--sweep-imm") {
+        let (n, bad) = enc::sweep_imm();
+        std::fs::write(report_path, serde_json::to_string(&json!({"immediates": n, "bad": bad})).unwrap()).unwrap();
+        println!("encs --sweep-imm: {n} immediates, {} bad", bad.len());
+        return 0;
+    }
+    let recs = read_ndjson(arg(args, "--cases").expect("--cases"));
+    // pure functions: batches of 500 per child job keep the pipe traffic low
+    let batches: Vec<Value> = recs.chunks(500).map(|c| Value::Array(c.to_vec())).collect();
+    let results = run_isolated(&batches, 60000, |b| {
+        Value::Array(arr(b).iter().map(enc::run_enc).collect())
+    });
+    let mut pass = 0u64;
+    let mut fails = Vec::new();
+    let mut nfail = 0u64;
+    let mut samples = Vec::new();
+    for (b, r) in batches.iter().zip(results.iter()) {
+        let rs = arr(b);
+        match r {
+            ChildResult::Done(v) => {
+                for (rec, o) in rs.iter().zip(arr(v).iter()) {
+                    let bad = arr(&o["bad"]);
+                    if bad.is_empty() {
+                        pass += 1;
+                        if samples.len() < 3 { samples.push(rec.clone()); }
+                    } else {
+                        nfail += 1;
+                        if fails.len() < 300 {
+                            fails.push(json!({"record": rec, "reason": bad.iter().map(|x| x.as_str().unwrap_or("").to_string()).collect::<Vec<_>>().join(" | ")}));
+                        }
+                    }
+                }
+            }
+            _ => {
+                nfail += rs.len() as u64;
+                fails.push(json!({"record": rs[0], "reason": "the batch crashed the process"}));
+            }
+        }
+    }
+    let report = json!({"records": recs.len(), "pass": pass, "fail": nfail, "failures": fails, "samples": samples});
+    std::fs::write(report_path, serde_json::to_string(&report).unwrap()).unwrap();
+    println!("encs: {} records, {} pass, {} fail", recs.len(), pass, nfail);
     0
 }
